@@ -31,21 +31,38 @@ pub fn generate_instructions(program: Program, linter_names: Names) -> Instructi
     let InstructionGenerator {
         instructions,
         statement_addresses,
+        label_for_depths,
+        label_select_depths,
         ..
     } = generator;
     // pass 3 resolve labels to addresses
     let mut label_resolver = LabelResolver::new(instructions);
     label_resolver.resolve_labels();
     let LabelResolver { instructions } = label_resolver;
+    // the nesting depths of the labels, by address (RESUME label needs them at run time)
+    let mut label_depths = std::collections::HashMap::new();
+    for (address, instruction_pos) in instructions.iter().enumerate() {
+        if let Instruction::Label(name) = &instruction_pos.element {
+            if let (Some(for_depth), Some(select_depth)) =
+                (label_for_depths.get(name), label_select_depths.get(name))
+            {
+                label_depths.insert(address, (*for_depth, *select_depth));
+            }
+        }
+    }
     InstructionGeneratorResult {
         instructions,
         statement_addresses,
+        label_depths,
     }
 }
 
 pub struct InstructionGeneratorResult {
     pub instructions: Vec<InstructionPos>,
     pub statement_addresses: Vec<usize>,
+    /// For the address of every label written in the program: the number of
+    /// FOR loops and of SELECT CASE statements that enclose it.
+    pub label_depths: std::collections::HashMap<usize, (usize, usize)>,
 }
 
 #[derive(Clone, Debug)]
